@@ -60,6 +60,16 @@ UserTag == /\ IsEvent("usertag")
            /\ Ev.obs.head = st.head /\ Ev.obs.dirty = st.dirty /\ Ev.obs.other = st.other
            /\ st' = Obs(st.version, st.n)
 
+\* `git tag name src` with src an annotated tag: both refs point at the SAME tag object
+Alias == /\ IsEvent("alias")
+         /\ Ev.name \notin DOMAIN st.tags /\ Ev.name \in DOMAIN NameTable /\ Ev.src \in DOMAIN st.tags
+         /\ st.tags[Ev.src].k = "annotated"
+         /\ DOMAIN Ev.obs.tags = DOMAIN st.tags \cup {Ev.name}
+         /\ \A x \in DOMAIN st.tags : Ev.obs.tags[x] = st.tags[x]
+         /\ Ev.obs.tags[Ev.name] = st.tags[Ev.src]
+         /\ Ev.obs.head = st.head /\ Ev.obs.dirty = st.dirty /\ Ev.obs.other = st.other
+         /\ st' = Obs(st.version, st.n)
+
 Touch == /\ IsEvent("touch")
          /\ st.dirty = "clean" /\ Ev.obs.dirty = Ev.kind
          /\ SameTags(Ev.obs.tags, st.tags) /\ Ev.obs.head = st.head
@@ -78,7 +88,7 @@ Run == /\ IsEvent("run")
        /\ RunContract(st, Ev.flag, Obs(st.version, st.n), Ev.exit)
        /\ st' = Obs(st.version, st.n)
 
-TraceNext == Reset \/ Commit \/ Checkout \/ UserTag \/ Touch \/ Bump \/ Run
+TraceNext == Reset \/ Commit \/ Checkout \/ UserTag \/ Alias \/ Touch \/ Bump \/ Run
 
 TraceSpec == TraceInit /\ [][TraceNext]_tvars
 
